@@ -541,6 +541,116 @@ def r8_comparison_covers_everything(ctx):
     whole_content_hashed(ctx, 'C10.R8')
 
 
+DOC_LAYER = ('rustdoc_processor', 'rustdoc_resolver', 'rustdoc_ir', 'rustdoc_ext', 'pavexc_annotations', 'pavexc_attr_parser')
+# order-sensitive iterations over randomly seeded hash containers in the documentation layer: (crate, function suffix) -> (sites, reason)
+DOC_REVIEWED = {
+    ('rustdoc_processor', 'indexing::re_exports::ExternalReExports::iter'): (1,
+        'hands the re-exports out in hash order; every consumer is reviewed: pavexc `register_imported_components` (C10.R1 table, `find`/`any` '
+        'on a predicate that identifies one re-export) and `Crate::get_item_id_by_path`, whose loop is decided by the clause below'),
+    ('rustdoc_processor', 'queries::Crate::index'): (1,
+        'fills import_path2id "first one wins" per path; two items share an import path only across namespaces (a module and a function of the same '
+        'name), and pavexc resolves paths of one namespace at a time by the kind it expects. Not demonstrated either way: recorded as a caveat'),
+    ('rustdoc_resolver', 'resolve_type::skip_default'): (1, '`find` on a predicate that identifies the one item whose canonical path is alloc::alloc::Global'),
+    ('rustdoc_resolver', '<GenericBindings as core::fmt::Debug>::fmt'): (3, 'Debug output only'),
+    ('rustdoc_ir', 'generics_equivalence::UnassignedIdGenerator::into_sorted_iter'): (1, 'collected into a Vec that is sorted by id on the next line'),
+}
+
+
+def r9_doc_layer_hash_order(ctx):
+    from ..govern import controlling_switches
+    ctx.rule('C10.R9', 'P3+P7 hash-order audit of the documentation layer (rustdoc_processor, rustdoc_resolver, rustdoc_ir, the annotation parsers): the same '
+             'audit as C10.R1 — an iteration over a randomly seeded HashMap / HashSet whose order can reach a result is auto-discharged when all its '
+             'consumers are order insensitive, and otherwise has to be in the reviewed table, with a count. Plus the clause the review of '
+             '`ExternalReExports::iter` rests on: in `Crate::get_item_id_by_path` the loop over the re-exports is left early only WITH the item — '
+             'the `return` inside the loop is governed by the Ok-of-Ok test of the nested lookup. Several prefixes can match one path (`pub use '
+             'dep_a::*` next to `pub use dep_b::sub`); returning the answer of the first matching one, found or not, made `facade::sub::x` resolve '
+             'or not depending on the hash seed (37 / 27 out of 64 identical runs, repaired in af1a772).')
+    n = 0
+    seen = {}
+    for crate in DOC_LAYER:
+        try:
+            bodies = ctx.fb.bodies(crate)
+        except KeyError:
+            continue
+        for b in bodies:
+            if b.is_promoted:
+                continue
+            for bb, t in b.calls():
+                c = callee(t) or ''
+                m = c.split('::')[-1]
+                if m not in ORDER_METHODS or not t['aty'] or not _is_random(t['aty'][0]):
+                    continue
+                n += 1
+                terms = _consumers(b, t)
+                sens = []
+                for kind, what in terms:
+                    if kind == 'collect':
+                        if not strip_generics(what).lstrip('&').startswith(ORDERED_COLLECT) and not what.startswith(ORDERED_COLLECT):
+                            sens.append('collect<%s>' % what[:50])
+                    elif kind not in INSENSITIVE_TERMINALS:
+                        sens.append(kind)
+                fn = b.nroot.replace(crate + '::', '')
+                if terms and not sens:
+                    ctx.ob('C10.R9', 'site|%s|%s|%s' % (crate, fn, m), True, b.loc(bb, t), 'consumed only by order-insensitive sinks')
+                    continue
+                rev = DOC_REVIEWED.get((crate, fn))
+                seen[(crate, fn)] = seen.get((crate, fn), 0) + 1
+                ctx.ob('C10.R9', 'site|%s|%s|%s' % (crate, fn, m), rev is not None, b.loc(bb, t),
+                       'iteration over a randomly seeded hash container flows into %s: %s' % (sorted(set(sens))[:4] or '(escapes the function)',
+                       ('reviewed — ' + rev[1]) if rev else 'NOT REVIEWED: the hash order can reach what pavexc resolves, and through it the generated code'))
+    for k, cnt in sorted(seen.items()):
+        lim = DOC_REVIEWED.get(k, (0, ''))[0]
+        if k in DOC_REVIEWED:
+            ctx.ob('C10.R9', 'reviewed-count|%s|%s' % k, cnt <= lim, '', '%d order-sensitive site(s), %d reviewed' % (cnt, lim), nontrivial=False)
+    ctx.floor('C10.R9', 'hash iteration sites in the documentation layer', n, 5)
+    # the clause behind the review of ExternalReExports::iter
+    b = None
+    for x in ctx.fb.bodies('rustdoc_processor'):
+        if not x.is_promoted and x.nid == x.nroot and x.nid.endswith('queries::Crate::get_item_id_by_path'):
+            b = x
+    if not ctx.need('C10.R9', 'rustdoc_processor::queries::Crate::get_item_id_by_path', b):
+        return
+    its = [(bb, t) for bb, t in b.calls() if strip_generics(callee(t) or '').endswith('ExternalReExports::iter')]
+    if not its:
+        ctx.ob('C10.R9', 're-exports-loop-left-only-with-the-item', True, b.loc(), 'get_item_id_by_path no longer iterates ExternalReExports::iter', nontrivial=False)
+        return
+    defs = Defs(b)
+    der = forward_derived(b, {its[0][1]['dest']['l']}, defs, through_calls=True)
+    nexts = [(bb, t) for bb, t in b.calls() if (callee(t) or '').endswith('Iterator::next') and op_place(t['args'][0]) is not None and op_place(t['args'][0])['l'] in der
+             and 'ExternalReExport' in (t['aty'][0] if t.get('aty') else '')]
+    if not ctx.need('C10.R9', 'loop over the re-exports in get_item_id_by_path', nexts):
+        return
+    hb = nexts[0][0]
+    loop = {x for x in b.reachable(b.succ(hb)) if hb in b.reachable(b.succ(x))} | {hb}
+    # the switch on the Option returned by next(): its None edge is the regular exit
+    regular = set()
+    for sb in loop:
+        w = b.term(sb)
+        if w and w['k'] == 'switch' and 'enum' in w and strip_generics(w['enum']) == 'core::option::Option' and w['src']['l'] == nexts[0][1]['dest']['l']:
+            e = switch_edges(w)
+            if 'None' in e:
+                regular.add(e['None'])
+    bad, n_exit = [], 0
+    rets = set(b.return_blocks())
+    for x in sorted(loop):
+        for s2 in b.succ(x):
+            if s2 in loop or s2 in regular:
+                continue
+            if not (b.reachable(s2) & rets):
+                continue      # a panic edge
+            n_exit += 1
+            inner_ok = False
+            for sb, w in controlling_switches(b, x) + ([(x, b.term(x))] if (b.term(x) or {}).get('k') == 'switch' else []):
+                if 'enum' in w and strip_generics(w['enum']) == 'core::result::Result' and 'd:Ok' in (w['src'].get('p') or []):
+                    e = switch_edges(w)
+                    if e.get('Ok') is not None and (x in b.reachable(e['Ok'], avoid=[sb]) or e['Ok'] == s2 or x == sb and e['Ok'] == s2):
+                        inner_ok = True
+            if not inner_ok:
+                bad.append(b.loc(x))
+    ctx.ob('C10.R9', 're-exports-loop-left-only-with-the-item', n_exit > 0 and not bad, bad[0] if bad else b.loc(hb),
+           'early exits from the loop over the re-exports: %d, each governed by the Ok(Ok(_)) test of the nested lookup: %s' % (n_exit, n_exit > 0 and not bad))
+
+
 def check(ctx):
     r8_comparison_covers_everything(ctx)
     r1_hash_order(ctx)
@@ -551,3 +661,4 @@ def check(ctx):
     r5_parallel(ctx)
     r6_manifest_is_overwritten(ctx)
     r7_cacheability(ctx)
+    r9_doc_layer_hash_order(ctx)
